@@ -37,6 +37,26 @@ def crafted(rng, tier):
         if words < (1 << 31):
             rec = struct.pack(">ii", 1, words) + body
             out.append(("unbacked parts=%d" % big, hdr(100 + len(rec)) + rec, None))
+    # many parts, each declaring more than 1024 points, sizes consistent, the file cut inside the first part: whatever
+    # is pre-sized must stay proportional to what was read (not: one capped buffer per declared part)
+    for nparts, per in ((100, 1024), (500, 1024), (400, 5000)):
+        npts = nparts * per
+        body = struct.pack("<i", 3) + struct.pack("<4d", 0, 0, 1, 1) + struct.pack("<ii", nparts, npts)
+        body += b"".join(struct.pack("<i", i * per) for i in range(nparts))
+        words = (len(body) + 16 * npts) // 2
+        body += b"".join(struct.pack("<2d", float(i), 1.0) for i in range(10))
+        rec = struct.pack(">ii", 1, words) + body
+        out.append(("truncated: %d parts of %d points declared, 10 points present" % (nparts, per),
+                    refesri.encode_header(3, [0] * 8, 50 + 4 + words) + rec, None))
+        for code, extra in ((5, 0), (13, 16 + 8 * npts), (15, 16 + 8 * npts), (31, 4 * nparts + 16 + 8 * npts)):
+            b2 = struct.pack("<i", code) + body[4:44 + 4 * nparts]
+            if code == 31:
+                b2 += b"".join(struct.pack("<i", 0) for _ in range(nparts))
+            w2 = (len(b2) + 16 * npts + extra) // 2
+            b2 += b"".join(struct.pack("<2d", float(i), 1.0) for i in range(10))
+            if w2 < (1 << 31):
+                out.append(("truncated: type %d, %d parts of %d points declared" % (code, nparts, per),
+                            refesri.encode_header(code, [0] * 8, 50 + 4 + w2) + struct.pack(">ii", 1, w2) + b2, None))
     # an index that really holds n entries but announces far more
     pt = {"type": 1, "box": [0] * 8, "records": [{"num": 1, "shape": {"code": 1, "x": 0, "y": 0}}]}
     shp1 = refesri.encode_shp(pt)
@@ -67,7 +87,9 @@ def run(rep, tier, rng):
              for (_, shp, shx) in inputs]
     rep.cov["rule"] = ("%d inputs: valid files; every 32-bit field of valid .shp/.shx files replaced by boundary values (as C07); "
                        "counts consistent with the declared record length but not backed by data (2^20 .. 2^28 points/parts); "
-                       "records fully backed by data with thousands of descending or empty part offsets; indexes that hold n "
+                       "records fully backed by data with thousands of descending or empty part offsets; records that declare "
+                       "hundreds of parts of more than 1024 points each, consistently sized, with the file cut inside the first "
+                       "part; indexes that hold n "
                        "in {10, 1023, 1024, 1025, 3000} entries but announce up to 2^31-1 words; each opened (with the index "
                        "when given), iterated to the end keeping every item, then read by index, under a counting global "
                        "allocator; oracle: peak live bytes above the baseline <= 64 * input bytes + 64 KiB and no single "
